@@ -256,10 +256,25 @@ def check(model, rep, tier):
   rep.check(okp, 'IFACE-FACTORY',
             '%s:placeholders' % wf.site, 'placeholder wiring of the factory '
             'template', {'kwargs': kwv}, line=s.call.lineno)
-  dl = [n for n in wf.node.body if isinstance(n, ast.For) and
-        core.norm(n.iter) == wf.params(skip_self=False)[4]]
-  ok = len(dl) == 1 and not any(isinstance(x, (ast.Break, ast.Continue, ast.If))
-                                for x in ast.walk(dl[0]))
+  # what goes into the dummy closure definitions: for every closure variable
+  # (no filter, no early exit) every statement of a template instantiated with it
+  from sa import collect
+  accn = core.norm(dcd) if dcd is not None else None
+  ys, problems = collect.yields(wf.node)
+  mine = [y for y in ys if y[2] == accn]
+  cvp = wf.params(skip_self=False)[4]
+  ok = len(mine) == 1 and not problems and not any(
+      isinstance(x, (ast.Break,)) for x in ast.walk(wf.node))
+  if ok:
+    levels, elt, _ = mine[0]
+    ok = len(levels) == 2 and core.norm(levels[0]['iter']) == cvp and \
+        not levels[0]['conds'] and not levels[1]['conds'] and \
+        core.norm(elt) == levels[1]['target']
+    if ok:
+      it = levels[1]['iter']
+      ok = isinstance(it, ast.Call) and core.dotted(it.func) == 'templates.replace' and any(
+          k.arg == 'var_name' and core.norm(k.value) == levels[0]['target']
+          for k in it.keywords)
   rep.check(ok, 'IFACE-FACTORY', '%s:every-closure-var-declared' % wf.site,
             'a cell-creating dummy definition is needed for *every* closure '
             'variable (unused ones included)', line=wf.node.lineno,
